@@ -1533,7 +1533,9 @@ def optimize_blockwise_fusion_array(expr):
                 seen_in_group.add(node._name)
 
                 group.append(node)
-                for dep_name in dependencies.get(node._name, set()):
+                # sorted: set order follows PYTHONHASHSEED and would leak into the
+                # fused group's member order, and so into its name and keys
+                for dep_name in sorted(dependencies.get(node._name, set())):
                     dep = expr_mapping[dep_name]
 
                     stack_names = {s._name for s in stack}
